@@ -7,7 +7,7 @@ from oracles import PhaseOracle, ConsistencyOracle
 from propbase import StreamProperty
 from common import np, dnp
 
-RULE = ("phase with p0, p1 drawn from (-360, 360) in all four sign combinations plus zeros, scalars and per-trace arrays, "
+RULE = ("phase with p0, p1 drawn from (-360, 360) in all four sign combinations plus zeros, scalars and per-trace arrays (also arrays in which only some entries are zero, scalar with array), "
         "trace lengths 2..64 (quick: a subset), 1-3-D complex data with the phased dimension in every position; "
         "phase_cycle with every receiver-phase list of length 1-8 dividing the cycled extent; correspondence with the Lean "
         "model (closed-form factor table) and, on the real code, closed form, |out|=|in|, additivity, inverse, "
@@ -39,6 +39,16 @@ def streams(tier, seed):
             out.append([a, op_phase(a, dim, Fraction(rng.randint(-359, 359)), Fraction(rng.randint(-359, 359)))])
             out.append([a, op_phase(a, dim, [Fraction(rng.randint(-359, 359)) for _ in range(m)],
                             [Fraction(rng.randint(-359, 359)) for _ in range(m)])])
+            if m > 1:
+                # per-trace arrays in which SOME entries are exactly zero (none / one / all but one), for either angle
+                for zp in range(3):
+                    def arr(zero_at):
+                        return [Fraction(0) if (i in zero_at) else Fraction(rng.choice([-1, 1]) * rng.randint(1, 359)) for i in range(m)]
+                    z1 = {rng.randrange(m)} if zp == 0 else (set(range(m)) - {rng.randrange(m)} if zp == 1 else set())
+                    z0 = {rng.randrange(m)} if zp != 1 else set()
+                    out.append([a, op_phase(a, dim, arr(z0), arr(z1))])
+                out.append([a, op_phase(a, dim, Fraction(rng.randint(1, 359)), arr({0}))])
+                out.append([a, op_phase(a, dim, arr({m - 1}), Fraction(-rng.randint(1, 359)))])
             n = shape[dims.index(dim)]
             for L in range(1, 9):
                 if n % L == 0:
